@@ -60,6 +60,17 @@ type (
 	MyStruct = T
 )
 
+// named types a plain result is convertible (not assignable) to
+type (
+	Celsius float64
+	Label   string
+	Count   int
+)
+
+func NewFloat(args ...interface{}) float64 { return 36.6 }
+func NewText(args ...interface{}) string  { return "txt" }
+func NewInt(args ...interface{}) int       { return 7 }
+
 func mk(origin string, args []interface{}) *T {
 	return &T{Origin: FixturePkg + "." + origin, Args: args, Serial: gvserial.Next()}
 }
